@@ -23,17 +23,23 @@ Print Assumptions C03_each_started_once.
 
 (* ------------------------------------------------------------------------------------------------------------
    The whole run, for EVERY world, test outcomes, tearDown behaviour (errors, NotImplementedError so that later
-   layers are resumed in subprocesses), --repeat count and -j N: absent the stop condition -x and layer set-up
-   failures, test number t is started exactly `reps` times counted over ALL processes of the run (the parent and
-   every layer subprocess) when it is a selected test, and never otherwise.  Together with C01's whole-run
-   theorem (every start happens with exactly the test's layer stack set up) this is "once per iteration, in
-   exactly one process, under its own layer, and no other test". *)
+   layers are resumed in subprocesses), set-up failures of OTHER layers, --repeat count and -j N: absent the stop
+   condition -x, a selected test whose own layer stack can be set up (`good`) is started exactly `reps` times
+   counted over ALL processes of the run (the parent and every layer subprocess), and nothing that is not a
+   selected test is ever started.  Together with C01's whole-run theorem (every start happens with exactly the
+   test's layer stack set up) this is "once per iteration, in exactly one process, under its own layer, and no
+   other test". *)
 From ZT Require Import LayersFacts RunLedger RunOnce.
 
 Theorem C03_whole_run_once_per_iteration : forall w o,
-  wf (lw w) -> o_x o = false ->
-  (forall l sc n, l_setup (spec_of w l) = Some sc -> script_at sc n = HOk) ->
-  (forall b, In b (tests w) -> t_layer b < nlayers (lw w)) ->
-  forall t, starts_of t (run w o) = if Nat.ltb t (length (tests w)) then reps o else 0.
+  wf (lw w) -> o_x o = false -> (forall b, In b (tests w) -> t_layer b < nlayers (lw w)) ->
+  forall t b, nth_error (tests w) t = Some b -> good w (t_layer b) ->
+  starts_of t (run w o) = reps o.
 Proof. exact each_test_started_once_per_iteration. Qed.
 Print Assumptions C03_whole_run_once_per_iteration.
+
+Theorem C03_whole_run_no_other_test : forall w o,
+  wf (lw w) -> o_x o = false -> (forall b, In b (tests w) -> t_layer b < nlayers (lw w)) ->
+  forall t, length (tests w) <= t -> starts_of t (run w o) = 0.
+Proof. exact no_other_test_started. Qed.
+Print Assumptions C03_whole_run_no_other_test.
